@@ -426,7 +426,7 @@ func (w *icaChanWorld) probe(kind string, r *hx.Rng) (map[string]any, string) {
 // famIcaChan: histories of registrations, handshake steps, timeouts closing ORDERED channels, reopenings
 // with the same / different metadata and ordering, sends by owners and non-owners.
 func famIcaChan(t *testing.T, r *hx.Rng, o *hx.Out) {
-	nh := hx.N(12, 300)
+	nh := hx.N(12, 120)
 	for hi := 0; hi < nh; hi++ {
 		w := newIcaChanWorld(t)
 		o1 := w.owner(0).SenderAccount.GetAddress().String()
